@@ -6,6 +6,16 @@ from vlib import *
 from extract import *
 
 PID = "C31"
+META = dict(
+    category="proof",
+    text=("CBMC code contracts on the real SFMT.cpp (recurrence, whole-state update, seeding frame/parity, to_res53) and on "
+          "Random.cpp members cut mechanically each run (buffer protocol, setSeed reset, Uniform range [min,max) for all finite "
+          "min<max, integer mode, Gaussian rejection-loop domain and cached-deviate protocol, 2-copy determinism lemmas). All inputs, "
+          "all iterations; the seeding multiplier recurrence is a bounded stand-in (6 seeds) and is reported as such; statistics not decided."),
+    note=("Trusted: CBMC 6.11 + MiniSat, its IEEE/x87 model, extractor rule tables; assumed: product lemma 0<=fl(u*a)<=a, libm "
+          "nextafter/log/sqrt contracts, abstract SFMTData view linking the two units."),
+    technique="CBMC function contracts (dfcc) + loop contract + loop-free full-domain harnesses on mechanically extracted real code",
+    design_ref="4 C31")
 SPEC = os.path.join(VERIF, "specs", PID)
 SFMT_DIR = os.path.join(REPO, "SimTKcommon/Random/src")
 RANDOM_CPP = os.path.join(SFMT_DIR, "Random.cpp")
